@@ -7,7 +7,7 @@ level numpy.random functions are routed through it, np.random.RandomState is rep
 generators created inside a call by check_random_state(int) are seen) and logging instances are passed as
 random_state.  Per call the harness records five bits (completed, global drawn, fresh object drawn, passed
 instance drawn, global state changed) which the model (Model/Draws.v skeleton of the entry point, executed on
-a toy generator inside Coq) must predict exactly.  Draw counts / shapes / values are never compared.
+a toy generator inside Coq) must predict (exactly, except that an additional child generator created inside the call is tolerated: Corr.C16.proj_eqb).  Draw counts / shapes / values are never compared.
 
 Static correspondence (corr:C16-static): a Python-ast extraction turns the source of every function / class of
 tensorly with a random_state (seed) parameter into a term of the Python-shaped language pskel (names kept, callees
@@ -254,6 +254,10 @@ def configs(tier, rng):
                        entry_point="tensorly.random.random_tt"))
         out.append(Cfg(f"random_tr[{sh}]", "E_random_tr", opts_lit(sh, 2), lambda rs, sh=sh: tlr.random_tr(sh, [2] * (len(sh) + 1), random_state=rs), kinds=BAD,
                        entry_point="tensorly.random.random_tr"))
+    out.append(Cfg("random_tt_full[(4, 3, 5)]", "E_random_tt", opts_lit((4, 3, 5), 2), lambda rs: tlr.random_tt((4, 3, 5), [1, 2, 2, 1], full=True, random_state=rs),
+                   entry_point="tensorly.random.random_tt"))
+    out.append(Cfg("random_tr_full[(4, 3, 5)]", "E_random_tr", opts_lit((4, 3, 5), 2), lambda rs: tlr.random_tr((4, 3, 5), [2, 2, 2, 2], full=True, random_state=rs),
+                   entry_point="tensorly.random.random_tr"))
     out.append(Cfg("random_cp_orth[(4, 3, 5)]", "E_random_cp", opts_lit((4, 3, 5), 2), lambda rs: tlr.random_cp((4, 3, 5), 2, orthogonal=True, random_state=rs),
                    entry_point="tensorly.random.random_cp"))
     # orthogonal / non-negative random_tucker has its own draw site; backend-level tl.randn / tl.gamma take a `seed`
@@ -279,6 +283,9 @@ def configs(tier, rng):
     Mw = data((4, 9), 2, nonneg=False)
     mask2 = (data((7, 5), 3) > 0.2) * 1.0
     out.append(Cfg("randomized_range_finder", "E_range_finder", opts_lit(), lambda rs: tsvd.randomized_range_finder(M, 3, random_state=rs), kinds=BAD,
+                   entry_point="tensorly.tenalg.svd.randomized_range_finder"))
+    Mvw = data((2, 11), 4, nonneg=False)
+    out.append(Cfg("randomized_range_finder[very wide]", "E_range_finder", opts_lit(), lambda rs: tsvd.randomized_range_finder(Mvw, 2, random_state=rs),
                    entry_point="tensorly.tenalg.svd.randomized_range_finder"))
     for nm, mat in (("tall", M), ("wide", Mw)):
         out.append(Cfg(f"randomized_svd[{nm}]", "E_randomized_svd", opts_lit(), lambda rs, mat=mat: tsvd.randomized_svd(mat, 2, random_state=rs),
@@ -851,8 +858,11 @@ class Extractor:
         if d == "os.urandom":
             return True
         n = self.norm_dotted(rel, d)
-        if n in ("numpy.random.default_rng", "numpy.random.SeedSequence", "numpy.random.Generator", "numpy.random.PCG64", "numpy.random.MT19937", "numpy.random.Philox", "numpy.random.SFC64"):
-            return unseeded
+        if n in ("numpy.random.default_rng", "numpy.random.SeedSequence", "numpy.random.Generator", "numpy.random.PCG64", "numpy.random.MT19937", "numpy.random.Philox", "numpy.random.SFC64",
+                 "numpy.random.RandomState", "numpy.random.mtrand.RandomState"):
+            return unseeded        # RandomState() without a seed is seeded from the operating system
+        if parts[-1] == "rvs" and len(parts) > 1 and not any(k.arg in ("random_state", "seed") and not (isinstance(k.value, ast.Constant) and k.value.value is None) for k in c.keywords):
+            return True            # scipy.stats.<distribution>.rvs(...) without random_state draws from numpy's global generator
         return False
 
     def resolve_dotted(self, rel, parts):
@@ -1314,7 +1324,7 @@ class _Scope:
             ev = "(PDraw %d%%nat 0%%nat)" % self.vars[parts[0]]
         elif len(parts) == 3 and parts[0] == "self" and parts[1] in SEED_PARAMS and self.param == "self" and last in self.ex.samplers:
             ev = "(PDraw 0%nat 0%nat)"
-        elif self.ex.norm_dotted(self.rel, d).rpartition(".")[0] in GLOBAL_OBJECTS and last in drawish:
+        elif self.ex.norm_dotted(self.rel, d).rpartition(".")[0] in GLOBAL_OBJECTS and self.ex.norm_dotted(self.rel, d).rpartition(".")[2] in drawish:
             ev = "(PDrawNp 0%nat)"
             self.ex.flags.append((self.where, f"draw on numpy's global generator: {d}"))
         elif self.ex.entropy_call(self.rel, c):
